@@ -23,5 +23,8 @@ Definition allowed_switches : list string :=
 Definition switches_ok (conds : list (string * string)) : bool :=
   forallb (fun '(_, m) => existsb (String.eqb m) allowed_switches) conds.
 
+(* identifiers declared or called inside text guarded by SIGCXX_DISABLE_DEPRECATED: the deprecated
+   factory track_obj() and the functor it constructs, nothing else (in particular no visit_each) *)
 Definition deprecated_ok (names : list string) : bool :=
-  forallb (fun n => String.eqb n "track_obj") names.
+  forallb (fun n => String.eqb n "track_obj" || String.eqb n "track_obj_functor") names
+  && existsb (String.eqb "track_obj") names.
